@@ -149,6 +149,7 @@ def templates_for(roles):
     if customs and not has_desc:
         out.append(' - '.join('{%s}' % c for c in dict.fromkeys(customs)))
         out.append('{%s} ({nosuch})' % customs[0])
+        out.append('{%s} {%s}' % (customs[0], customs[0][1:-1]))  # `emo` is not captured although `memo` is
         if len(set(customs)) > 1:
             out.append('{%s}' % customs[-1])
     elif has_desc:
